@@ -486,6 +486,17 @@ theorem C08_region_strict (r : BqVerif.Region.Region) (hr : r.wf = true) (hne : 
   · intro h; exact ⟨_, _, rfl, rfl, h⟩
   · rintro ⟨a, b, rfl, rfl, h⟩; exact h
 
+/-- **`region.volume`** is the number of cells, and **`r.dependency(s)`** is 0 without a shared qudit,
+    1 when on SOME shared qudit all of `s` lies before all of `r`, -1 otherwise (note the contrast
+    with `depends_on`, which asks for ALL shared qudits). -/
+theorem C08_region_volume_dependency (r s : BqVerif.Region.Region) (hr : r.wf = true) :
+    r.volume = r.points.length
+    ∧ (r.dependency s = 0 ↔ r.common s = [])
+    ∧ (r.dependency s = 1 ↔ ∃ q ∈ r.common s, BqVerif.Region.Region.fShared s r q = true)
+    ∧ (r.dependency s = -1 ↔
+        r.common s ≠ [] ∧ ∀ q ∈ r.common s, BqVerif.Region.Region.fShared s r q = false) :=
+  ⟨BqVerif.Region.Region.volume_eq r hr, BqVerif.Region.Region.dependency_spec r s⟩
+
 /-- non-vacuity: two blocks of a 3-qudit circuit, the second after the first on qudit 1 -/
 example :
     let r : BqVerif.Region.Region := [(1, ⟨2, 3⟩), (2, ⟨0, 3⟩)]
